@@ -1483,7 +1483,10 @@ func (l *lexer) scanCmdSubst(r rune) bool {
 		verifYield(verifPostJoin, ll)
 		if ll.err != nil {
 			l.mu.Lock()
-			l.err = ll.err
+			if _, ok := l.err.(Error); ok || l.err == nil {
+				// a read error is not replaced by a syntax error
+				l.err = ll.err
+			}
 			if len(ll.stack) == 0 && r == '`' {
 				if err, ok := l.err.(Error); ok {
 					l.err = Error{
@@ -1743,10 +1746,13 @@ func (l *lexer) error(pos ast.Pos, msg string) {
 	if l.err != nil && strings.Contains(msg, ": unexpected EOF") {
 		return // lexing was interrupted
 	}
-	l.err = Error{
-		Name: l.name,
-		Pos:  pos,
-		Msg:  msg,
+	if _, ok := l.err.(Error); ok || l.err == nil {
+		// a read error is not replaced by a syntax error
+		l.err = Error{
+			Name: l.name,
+			Pos:  pos,
+			Msg:  msg,
+		}
 	}
 
 	select {
